@@ -192,5 +192,8 @@ def run(check, ctx):
     # the native Poly1305 on a boundary table of limb values
     from . import c_poly
     c_poly.poly_tables(check, ctx)
-    check.undecided.append("digest values: compression functions, sponge permutation and padding in C; "
+    # the native sponge with the permutation uninterpreted: padding, rate, suffix, output for all message values
+    from . import c_keccak
+    c_keccak.keccak_tables(check, ctx, groups=("sponge", "init"))
+    check.undecided.append("digest values: compression functions, the Keccak permutation itself, Merkle-Damgard padding in C; "
                            "KangarooTwelve tree bookkeeping values; Poly1305 beyond the boundary table")
